@@ -2,7 +2,7 @@
 import ctypes, os, math
 from fractions import Fraction
 from . import build, llparse as L, term as T, solver as S
-from .exec import Executor, UNDEF, Bits
+from .exec import Executor, UNDEF, Bits, ExecError
 from .term import Term
 
 _modcache = {}
@@ -106,7 +106,7 @@ class Harness:
         ex = Executor(self.mod, domain or self.domain, self.solver)
         return ex
 
-    def run(self, fname, args, domain=None, prepare=None, ex=None, max_paths=100000):
+    def run(self, fname, args, domain=None, prepare=None, ex=None, max_paths=3000):
         ex = ex or self.executor(domain)
         st = ex.new_state()
         bufs = {}
@@ -153,8 +153,15 @@ class Harness:
             vals[i] = (bufs[a.name][0] + a.off) if a.name is not None else a.off
         if prepare is not None:
             prepare(ex, st, bufs)
-        res = ex.run(st, fname, vals, max_paths=max_paths)
         self.last_ex = ex
+        try:
+            res = ex.run(st, fname, vals, max_paths=max_paths)
+        except ExecError as e:
+            if 'path explosion' not in str(e):
+                raise
+            # more feasible paths than the budget: reported as one failed path (the check decides: broken / undecided), never silently truncated
+            from .exec import PathResult
+            res = [PathResult('error', st, info={'kind': 'path-explosion', 'msg': '%s: more than %d feasible paths' % (fname, max_paths)})]
         return [Path(r, bufs, ex) for r in res]
 
     # ---------------------------------------------------------------- native
